@@ -28,8 +28,8 @@ VARIABLES phase,      \* "build" | "failed" (a bind call returned Err) | "runnin
           failNext,   \* call whose next readiness check fails (0 = none)
           pend,       \* calls whose services currently answer Pending to the readiness check (application back-pressure)
           waiting,    \* sockets of the clients that connected while some service was pending (in arrival order)
-          dead,       \* 1: a worker has died and the accept thread has not noticed yet (it notices when a send to it fails)
-          events,     \* events so far: [k |-> "conn", s, by] | [k |-> "fail", c] | [k |-> "die"]
+          dead,       \* number of workers that have died unnoticed by the accept thread (it notices when a send to one fails)
+          events,     \* events so far: [k |-> "conn", s, by] | [k |-> "fail", c] | [k |-> "die"] | [k |-> "die2"]
           done
 vars == <<phase, calls, tok, factories, sockets, nw, svc, made, failNext, pend, waiting, dead, events, done>>
 
@@ -97,7 +97,7 @@ MadeAfterFail == IF failNext = 0 \/ ~\E i \in 1..Len(svc) : svc[i].call = failNe
 \* finds the dead worker (the send fails): the server starts a replacement (one new instance per socket) and the connection
 \* is re-routed to a live worker - or dropped when none is left (C08).  With two workers the rotation decides whether a
 \* dispatch meets the dead one, so `disc` is free; with a single worker it is forced.
-Lost(disc) == disc /\ nw = 1
+Lost(disc) == disc /\ (nw = 1 \/ dead = 2)
 \* a worker calls a service only when EVERY service of the worker is ready: while some call's services are pending a
 \* dispatched connection waits in the worker's queue (C07)
 Waits == pend # {}
@@ -106,7 +106,7 @@ ModelBy(p, disc) == LET t == sockets[p].tok IN
                       ELSE AfterFail(svc)[t + 1].call
 ConnObs(p, by, disc) ==
   /\ phase = "running" /\ ~done /\ Len(events) < MaxEvents /\ p \in 1..Len(sockets)
-  /\ (disc => dead = 1) /\ (dead = 1 /\ nw = 1 => disc)
+  /\ (disc => dead >= 1) /\ ((dead = 1 /\ nw = 1) \/ dead = 2 => disc)
   /\ events' = Append(events, [k |-> "conn", s |-> p, by |-> by, lost |-> Lost(disc), wait |-> Waits /\ ~Lost(disc)])
   /\ LET t == sockets[p].tok IN
        IF t + 1 > Len(sockets) \/ t + 1 > Len(svc)
@@ -116,11 +116,11 @@ ConnObs(p, by, disc) ==
          THEN UNCHANGED <<phase, svc, made, failNext, dead, done, waiting>>     \* accept() on another socket: WouldBlock; the client is stranded
        ELSE IF Waits
          THEN /\ waiting' = (IF Lost(disc) THEN waiting ELSE Append(waiting, p))
-              /\ made' = (IF disc THEN MadeBy(made, 1) ELSE made)
+              /\ made' = (IF disc THEN MadeBy(made, dead) ELSE made)
               /\ dead' = (IF disc THEN 0 ELSE dead)
               /\ UNCHANGED <<phase, svc, failNext, done>>
        ELSE /\ svc' = AfterFail(svc) /\ failNext' = 0
-            /\ made' = (IF disc THEN MadeBy(MadeAfterFail, 1) ELSE MadeAfterFail)
+            /\ made' = (IF disc THEN MadeBy(MadeAfterFail, dead) ELSE MadeAfterFail)
             /\ dead' = (IF disc THEN 0 ELSE dead)
             /\ UNCHANGED <<phase, done, waiting>>
   /\ UNCHANGED <<calls, tok, factories, sockets, nw, pend>>
@@ -136,8 +136,15 @@ FailReady(c) ==
 \* handle_cmd(WorkerFaulted) then builds a new worker from clone_factory() of every factory
 Die ==
   /\ phase = "running" /\ ~done /\ Len(events) < MaxEvents - 1 /\ failNext = 0 /\ dead = 0 /\ pend = {}
-  /\ ~\E k \in 1..Len(events) : events[k].k = "die"
+  /\ ~\E k \in 1..Len(events) : events[k].k \in {"die", "die2"}
   /\ dead' = 1 /\ events' = Append(events, [k |-> "die"])
+  /\ UNCHANGED <<phase, calls, tok, factories, sockets, nw, svc, made, failNext, pend, waiting, done>>
+\* both workers die before anything is dispatched again: the next connection fails at the first, is re-routed, fails at
+\* the second and is dropped (no handle is left); BOTH faults are reported and the server starts a replacement for each
+DieBoth ==
+  /\ phase = "running" /\ ~done /\ Len(events) < MaxEvents - 1 /\ failNext = 0 /\ dead = 0 /\ pend = {} /\ nw = 2
+  /\ ~\E k \in 1..Len(events) : events[k].k \in {"die", "die2"}
+  /\ dead' = 2 /\ events' = Append(events, [k |-> "die2"])
   /\ UNCHANGED <<phase, calls, tok, factories, sockets, nw, svc, made, failNext, pend, waiting, done>>
 
 \* the services of call c start / stop answering Pending.  When the last pending call becomes ready again the workers
@@ -165,7 +172,7 @@ Finish == /\ phase = "running" /\ ~done /\ failNext = 0 /\ pend = {} /\ events #
           /\ UNCHANGED <<phase, calls, tok, factories, sockets, nw, svc, made, failNext, pend, waiting, dead, events>>
 
 Next == (\E a \in AddrLists : Bind(a)) \/ Listen("listen") \/ Listen("uds") \/ (\E w \in 1..MaxWorkers : Run(w))
-        \/ (\E p \in 1..MaxSockets : Conn(p)) \/ (\E c \in 1..MaxCalls : FailReady(c) \/ Pend(c) \/ Unpend(c)) \/ Die \/ Finish
+        \/ (\E p \in 1..MaxSockets : Conn(p)) \/ (\E c \in 1..MaxCalls : FailReady(c) \/ Pend(c) \/ Unpend(c)) \/ Die \/ DieBoth \/ Finish
 Spec == Init /\ [][Next]_vars
 
 (* ---- properties ---- *)
